@@ -121,8 +121,62 @@ def run_cert(kind, tier, seed, C, tz=None):
     return {"cases": len(terms), "nontrivial": distinct, "samples": [d[:600] for d in descr[3:len(descr):max(1, len(descr) // 3)]][:3], "violations": viol, "error": err, "outcomes": hist,
             **({"tz": tz} if tz else {})}
 
+DIR_HEADER = """From Coq Require Import List Arith Bool.
+From Gopki.Model Require Import Dir Plan Run Ops Current DirCaseLib.
+Import ListNotations.
+Definition cases : list (list hstep * list obsT) := [
+"""
+
+def run_dir(kind, tier, seed, C):
+    p = subprocess.run([os.path.join(C["VERIF"], "harness", "harness"), kind, tier, str(seed)], capture_output=True, text=True, env=C["ENV"], timeout=7200)
+    if p.returncode != 0:
+        return {"cases": 0, "nontrivial": 0, "samples": [], "violations": [], "error": "harness %s failed: %s" % (kind, p.stderr[-300:])}
+    descr = []; terms = []; viol = []
+    for l in p.stdout.split("\n"):
+        if l.startswith("CASE "): descr.append(l[5:])
+        elif l.startswith("COQ "): terms.append(l[4:])
+        elif l.startswith("SELFFAIL "): viol.append({"case": l[9:300], "detail": l[9:], "concrete": True})
+    nsh = max(1, min(12, len(terms) // 25))
+    procs = []
+    for k in range(nsh):
+        idx = list(range(k, len(terms), nsh))
+        name = "Dir_%s_%d" % (kind, k)
+        v = DIR_HEADER + ";\n".join(terms[i] for i in idx) + "].\nDefinition M := Eval vm_compute in run_histories cases.\nPrint M.\n"
+        open(os.path.join(C["bdir"], name + ".v"), "w").write(v)
+        procs.append((idx, name, subprocess.Popen(["coqc"] + C["COQ_Q"] + [name + ".v"], cwd=C["bdir"], stdout=subprocess.PIPE, stderr=subprocess.PIPE, text=True, env=C["ENV"])))
+    err = None; steps = 0; runs = 0
+    for t in terms:
+        steps += t.count("U (") + t.count("R (mkStrat"); runs += t.count("R (mkStrat")
+    for idx, name, pr in procs:
+        try: o, e = pr.communicate(timeout=3000)
+        except subprocess.TimeoutExpired:
+            pr.kill(); err = "coqc %s timed out" % name; continue
+        if pr.returncode != 0:
+            err = "coqc %s failed: %s" % (name, e.strip()[-400:]); continue
+        m = re.search(r"M\s*=\s*(.*?)\s*:\s*list", o, re.S)
+        if not m: err = "coqc %s: no result" % name; continue
+        body = re.sub(r"\s+", " ", m.group(1))
+        RULES = {1: "C01: a successful run left an entity it wrote without a certificate that verifies under and names its issuer's current certificate",
+                 2: "C10: a run with the same flags right after a successful run wrote files or failed",
+                 3: "C12: after a successful default run an entity lacks certificate or key material, or a hashed certificate does not chain",
+                 4: "C14: a run replaced or dropped an existing key / request, or the new certificate does not carry its public key",
+                 5: "C15: a failed write was reported as a successful run"}
+        for j, steps_s, rules_s in re.findall(r"\((\d+), \(\[([\d; ]*)\], \[([\d;, ()]*)\]\)\)", body):
+            i = idx[int(j)]
+            rules = [(int(a), int(b)) for a, b in re.findall(r"\((\d+), (\d+)\)", rules_s)]
+            det = []
+            if steps_s.strip(): det.append("implementation and model differ at step(s) [%s]" % steps_s)
+            for st, r in rules: det.append("step %d: %s" % (st, RULES.get(r, str(r))))
+            viol.append({"case": descr[i][:4000], "detail": "; ".join(det), "rules": rules, "concrete": bool(rules), "coq": terms[i][:30000]})
+        for f in (name + ".vo", name + ".glob", name + ".vok", name + ".vos", "." + name + ".aux"):
+            try: os.remove(os.path.join(C["bdir"], f))
+            except OSError: pass
+    return {"cases": len(terms), "nontrivial": len(set(terms)), "samples": [d[:700] for d in descr[1:len(descr):max(1, len(descr) // 3)]][:3], "violations": viol, "error": err,
+            "steps": steps, "runs": runs}
+
 def run_stream(st, prop, tier, seed, C):
     if st in PIPE: return run_pipe(PIPE[st], tier, seed, C)
+    if st in ("dirrun", "dirfault"): return run_dir(st, tier, seed, C)
     if st.startswith("cert-"):
         tz = None
         if "@" in st: st, tz = st.split("@")
